@@ -113,6 +113,9 @@ func (t *trTranslator) directEffectIn(info *types.Info, root ast.Node) bool {
 		if trPerfEffect(info, n) {
 			eff = true // dereference of a nilable pointer, store into a nilable map (trans_units_perf.go)
 		}
+		if trCreateEffect(info, n) {
+			eff = true // r.Extract() on a syntax node (trans_units_create.go)
+		}
 		switch x := n.(type) {
 		case *ast.ForStmt:
 			eff = true
@@ -176,7 +179,18 @@ func (t *trTranslator) directEffectIn(info *types.Info, root ast.Node) bool {
 }
 
 func (t *trTranslator) callees(f *trFunc) []*trFunc {
-	return t.calleesIn(f.pkg.info, f.decl.Body)
+	res := t.calleesIn(f.pkg.info, f.decl.Body)
+	if !trCreateUnitSet[f.unit] {
+		// the functions of the Create units are translated for those units only (trans_units_create.go)
+		var keep []*trFunc
+		for _, g := range res {
+			if !trCreateUnitSet[g.unit] {
+				keep = append(keep, g)
+			}
+		}
+		res = keep
+	}
+	return res
 }
 
 func (t *trTranslator) calleesIn(info *types.Info, root ast.Node) []*trFunc {
@@ -357,6 +371,7 @@ func (t *trTranslator) translateFunc(f *trFunc) {
 				}
 				body = fl.Body.List
 				results = fsig.Results()
+				c.inCallback = true // the returned closure runs many times: untranslated calls are FUNCTIONS of their arguments (trans_units_mapping.go)
 			}
 		}
 	}
@@ -494,7 +509,9 @@ func trRun(repo string) (map[string]string, []string) {
 		decls: map[*trUnit][]string{}, declSeen: map[types.Object]bool{}, imports: map[*trUnit]map[*trUnit]bool{}, omitted: map[types.Object]map[string]bool{}}
 	files := map[string]string{}
 	for _, u := range trUnits {
-		t.unitOf[trKnutPath+u.pkg] = u
+		if t.unitOf[trKnutPath+u.pkg] == nil { // several units may share a Go package: its types belong to the first (trans_units_create.go)
+			t.unitOf[trKnutPath+u.pkg] = u
+		}
 	}
 	for _, u := range trUnits {
 		p, err := l.load(trKnutPath + u.pkg)
@@ -627,6 +644,7 @@ func trRun(repo string) (map[string]string, []string) {
 			b.WriteString("import Knut.GoSem.Fmt\n") // io.Writer, fmt's padding, strings.Join, Time.Format (trans_units_jprinter.go)
 		}
 		b.WriteString(trPerfImports(body.String() + strings.Join(t.decls[u], "\n")))
+		b.WriteString(trCreateImports(body.String())) // syntax nodes, time.Parse, decimal.NewFromString (trans_units_create.go)
 		for _, imp := range trMappingImports(body.String() + strings.Join(t.decls[u], "\n")) {
 			b.WriteString(imp + "\n") // Regexp.Ptr (trans_units_mapping.go)
 		}
